@@ -206,6 +206,34 @@ Theorem C05_h2_meta_noreset_refuted :
 Proof. exact h2_meta_noreset_refuted. Qed.
 Print Assumptions C05_h2_meta_noreset_refuted.
 
+(* the rest of what the hpack decoder carries from block to block: its position.  readMetaFrame
+   calls hdec.Close() before it looks at the malformed-field verdict, so whenever the connection
+   lives on the decoder is between two blocks ... *)
+Theorem C05_h2_meta_decoder_always_closed : forall dec mx sid su torn frags r e o,
+  h2_meta_run2 true dec mx sid su torn frags = (r, Some (e, o)) -> o = false.
+Proof. exact h2_meta_decoder_always_closed. Qed.
+Print Assumptions C05_h2_meta_decoder_always_closed.
+
+(* ... and every sequence of blocks - with blocks that open with a dynamic table size update, blocks
+   that end inside a field representation (connection COMPRESSION_ERROR), malformed and truncated ones
+   anywhere - is block by block what each block alone gives, up to the first connection error *)
+Theorem C05_h2_meta_seq2_independent : forall mx blocks e,
+  h2_meta_seq2 true (e, false) mx blocks = until_conn_err (map (h2_meta_block mx) blocks).
+Proof. intros mx blocks e. apply h2_meta_seq2_independent. Qed.
+Print Assumptions C05_h2_meta_seq2_independent.
+
+(* returning the malformed-field stream error before hdec.Close(): the valid block that follows and
+   opens with a size update kills the connection *)
+Theorem C05_h2_meta_close_after_invalid_refuted :
+  let bad := (1, (false, false), [(10, [(bs ":status", bs "200"); (bs "X-Upper", bs "v")])]) in
+  let good := (3, (true, false), [(10, [(bs ":status", bs "200"); (bs "server", bs "x")])]) in
+  h2_meta_seq2 true (true, false) 65536 [bad; good] =
+    [MErr (EStream 1 ErrCodeProtocol); MOk [(bs ":status", bs "200"); (bs "server", bs "x")] false] /\
+  h2_meta_seq2 false (true, false) 65536 [bad; good] =
+    [MErr (EStream 1 ErrCodeProtocol); MErr (EConn ErrCodeCompression)].
+Proof. exact h2_meta_close_after_invalid_refuted. Qed.
+Print Assumptions C05_h2_meta_close_after_invalid_refuted.
+
 (* ---------- one connection's request header encoder over a sequence of exchanges ---------- *)
 
 (* ClientConn.encodeHeaders / encodeTrailers refuse a list larger than the peer's
